@@ -336,7 +336,7 @@ IM_THEOREMS = ['IM.delivery_safe', 'IM.fifo_consumption', 'IM.happened_before', 
                'IM.fs_is_gen', 'IM.ffs_is_gen', 'IM.downsize_is_gen', 'IM.endPos_is_gen', 'IM.single_is_gen', 'IM.want_is_gen']
 PROPS['C02'] = {
     'modules': ['IpcModel.Props.C02'],
-    'theorems': ['C02.C02_whole', 'C02.C02_once_ordered', 'C02.C02_ok_in_order', 'C02.C02_hb'] + IM_THEOREMS,
+    'theorems': ['C02.C02_whole', 'C02.C02_once_ordered', 'C02.C02_ok_in_order', 'C02.C02_hb', 'C02.C02_whole_with_attachments'] + IM_THEOREMS,
     'scenarios': sched_scen(480, 12000),
     'search': search_sched,
     'rule': ('1..3 real sender threads x 1..2 messages each (sizes around the packet boundaries, 1..4 packets) and a real receiver thread, every sendmsg/send/'
@@ -350,12 +350,12 @@ PROPS['C02'] = {
                    '=> complete and its send returned Ok, Ok sends are in the first-packet order which is consumed exactly once in order, and a send that returned '
                    'before another began precedes it; the model is replayed against real gated threads of the crate'),
     'level_note': ('Trusted: Lean kernel, harness gate/interposer, kernel FIFO+atomicity; sender/receiver step functions hand-modelled (tied by schedule replay) with arithmetic '
-                   'bridged to generated definitions; the interleaving model carries payload ranges only - that a delivered message comes with exactly its own attachments is the '
-                   'separate theorem C12_own_attachments over the regenerated handling of recv\'s attachment vectors, and is exercised by the crash scenario'),
+                   'bridged to generated definitions; the interleaving model carries payload ranges; attachments are a second layer (IM.att_run: the receiver-side events of every execution fed to the '
+                   'attachment-vector machine of recv in the regenerated variant return each delivered message\'s own descriptors), exercised on the real crate by the crash scenario'),
 }
 PROPS['C12'] = {
     'modules': ['IpcModel.Props.C12'],
-    'theorems': ['C12.C12_intact', 'C12.C12_no_wait_on_dead', 'C12.C12_truncated_not_closed', 'C12.C12_own_attachments'] + IM_THEOREMS,
+    'theorems': ['C12.C12_intact', 'C12.C12_no_wait_on_dead', 'C12.C12_truncated_not_closed', 'C12.C12_own_attachments', 'C12.C12_attachments_all_schedules', 'IM.att_run'] + IM_THEOREMS,
     'scenarios': sched_scen(480, 12000),
     'search': search_sched,
     'rule': PROPS['C02']['rule'] + '; for C12 the injected fatal errors (x) abort a send at every packet position with other senders surviving',
